@@ -13,6 +13,7 @@
 #include <string.h>
 #include <stdint.h>
 #include "scpi/scpi.h"
+#include "utils_private.h"
 
 #define MAXCAP 16
 static scpi_t ctx;
@@ -383,6 +384,41 @@ static void resp_case_exact(FILE * f, int code, const char * text, size_t tlen) 
     fprintf(f, "}\n");
     release_all();
 }
+static long nwrapped;
+/* static heap: the text is stored in two pieces (it wraps the heap end because an older entry is still alive in front
+   of it), so the response is composed of three parts; first = number of text characters in the first piece */
+static void resp_case_wrapped(FILE * f, int code, const char * text, size_t tlen, size_t first) {
+    static char pad[2048];
+    size_t hs = tlen + 24, a = hs - first - 5;        /* layout: A (a chars + NUL), "bbb" + NUL, then the text */
+    char * tmp = malloc(tlen);
+    int savecap = cap;
+    if (first >= tlen || first + 5 >= hs || hs > sizeof heapbuf) { __real_free(tmp); return; }
+    cap = 4;
+    fresh();
+    cap = savecap;
+    SCPI_InitHeap(&ctx, heapbuf, hs);
+    memset(pad, 'p', sizeof pad);
+    SCPI_ErrorPushEx(&ctx, -100, pad, a);
+    SCPI_ErrorPushEx(&ctx, -101, pad, 3);
+    outn = 0; SCPI_Input(&ctx, "SYST:ERR?\n", 10);    /* A leaves: its room at the start of the heap is free again */
+    memcpy(tmp, text, tlen);
+    SCPI_ErrorPushEx(&ctx, (int16_t) code, tmp, tlen);
+    __real_free(tmp);
+    {
+        size_t l1 = 0, l2 = 0;
+        const char * s2 = NULL;
+        char * info = eq[(ctx.error_queue.wr + ctx.error_queue.size - 1) % ctx.error_queue.size].device_dependent_info;
+        if (info && scpiheap_get_parts(&ctx.error_info_heap, info, &l1, &s2, &l2) && s2 && l1 == first && l1 + l2 == tlen) nwrapped++;
+    }
+    outn = 0; SCPI_Input(&ctx, "SYST:ERR?\n", 10);
+    outn = 0; SCPI_Input(&ctx, "SYST:ERR?\n", 10);
+    fprintf(f, "{\"code\":%d,\"has\":1,\"text\":", code);
+    print_bytes(f, text, tlen);
+    fprintf(f, ",\"info\":%d,\"cnt\":%d,\"out\":", infobuild(), (int) SCPI_ErrorCount(&ctx));
+    print_bytes(f, outb, outn);
+    fprintf(f, "}\n");
+    release_all();
+}
 #endif
 
 static int resp(unsigned long seedv, const char * tier, const char * outpath) {
@@ -410,6 +446,25 @@ static int resp(unsigned long seedv, const char * tier, const char * outpath) {
             resp_case(f, codes[c], 1, text, longs[q]); n++;
         }
     }
+#if USE_DEVICE_DEPENDENT_ERROR_INFORMATION && !USE_MEMORY_ALLOCATION_FREE
+    /* texts stored in two pieces, the cut of the response falling before, at and behind the seam, quotes around both */
+    for (c = 0; c < (thorough ? 6 : 2); c++) {
+        size_t dl = strlen(SCPI_ErrorTranslate((int16_t) codes[c])), cut = 255 - dl - 1, first;
+        for (len = 20; len <= 420; len += (len < 230 || len > 300) ? (thorough ? 17 : 50) : (thorough ? 3 : 13)) {
+            for (first = 1; first < len; first += (first + 12 > cut && first < cut + 12) ? 1 : (thorough ? 19 : 61)) {
+                for (q = 0; q < (thorough ? 4 : 2); q++) {
+                    int k, nq = q == 0 ? 0 : 1 + rnd() % 3;
+                    memset(text, 'a' + (q % 20), len);
+                    for (k = 0; k < nq; k++) {
+                        long pos = (rnd() % 3 == 0) ? (long) (rnd() % len) : (rnd() % 2) ? (long) first - 2 + (long) (rnd() % 4) : (long) cut - 4 + (long) (rnd() % 6);
+                        if (pos >= 0 && (size_t) pos < len) text[pos] = '"';
+                    }
+                    resp_case_wrapped(f, codes[c], text, len, first); n++;
+                }
+            }
+        }
+    }
+#endif
     /* every length around the boundary, quotes at every position relative to it */
     for (c = 0; c < (thorough ? 13 : 4); c++) {
         size_t dl = strlen(SCPI_ErrorTranslate((int16_t) codes[c]));
@@ -434,7 +489,11 @@ static int resp(unsigned long seedv, const char * tier, const char * outpath) {
         }
     }
     fclose(f);
+#if USE_DEVICE_DEPENDENT_ERROR_INFORMATION && !USE_MEMORY_ALLOCATION_FREE
+    printf("{\"cases\":%ld,\"stored_in_two_pieces\":%ld}\n", n, nwrapped);
+#else
     printf("{\"cases\":%ld}\n", n);
+#endif
     return 0;
 }
 
